@@ -560,6 +560,10 @@ pub fn inputs_c17(r: &mut Rng, n: usize, _tier: &str, out: &mut dyn Write) {
             }
         }
     }
+    if n >= 5000 {
+        super::wrappers::gen_c17_units(out);
+        n = n.saturating_sub(864);
+    }
     // negation block: the epochs at which a duration-valued view is the exact NEGATION of the epoch's own count (only
     // possible for the views whose origin lies within two centuries of the scale's zero), +/- 1 ns
     if n >= 5000 {
